@@ -6,8 +6,8 @@ From Rex.Generated Require Import Policy.
 Open Scope string_scope.
 
 (* arithmetic ties at the carrier of the laws (R), up to ring identities *)
-Ltac tie := first [reflexivity | cbv [oadd osub omul odiv oopp omax omin oz Rops]; first [lra | ring | (field; lra)
-                  | (repeat f_equal; first [lra | ring | (field; lra)])]].
+Ltac congr := first [reflexivity | lra | ring | (field; lra) | (progress f_equal; congr)].
+Ltac tie := first [reflexivity | cbv [oadd osub omul odiv oopp omax omin oz Rops]; congr].
 Lemma unsquash_tie (ft : R -> R) sq lo hi x : unsquash_src Rops ft sq lo hi x = unsquash1 Rops ft sq lo hi x.
 Proof. unfold unsquash_src, unsquash1. destruct sq; tie. Qed.
 Lemma normalize_tie (fs : R -> R) cl sm mean var c x : normalize_src Rops fs cl sm mean var c x = normalize1 Rops fs cl sm c mean var x.
